@@ -479,6 +479,9 @@ func mutants(root map[string]any, plan []planItem) []mutant {
 				switch k {
 				case "$regime", "currency", "country", "$addons", "$schema":
 					keyPos[k] = append(keyPos[k], pos{func(z any) { v[k] = z }, y, path + "/" + k})
+				case "from", "to":
+					// the two ends of an exchange rate are currencies too
+					keyPos["currency"] = append(keyPos["currency"], pos{func(z any) { v[k] = z }, y, path + "/" + k})
 				}
 				find(y, path+"/"+k)
 			}
@@ -532,6 +535,22 @@ func mutants(root map[string]any, plan []planItem) []mutant {
 			if _, has := v["currency"]; !has && path != "" {
 				v["currency"] = "ZZZ"
 				emit("add-unknown-currency", path+"/currency")
+				// ... and with an exchange rate from that code into the document's currency
+				top := root
+				if d, ok := root["doc"].(map[string]any); ok {
+					top = d
+				}
+				if dc, ok := top["currency"].(string); ok {
+					oldRates, had := top["exchange_rates"]
+					rates, _ := oldRates.([]any)
+					top["exchange_rates"] = append(append([]any{}, rates...), map[string]any{"from": "ZZZ", "to": dc, "amount": "1.5"})
+					emit("add-unknown-currency", path+"/currency+rate")
+					if had {
+						top["exchange_rates"] = oldRates
+					} else {
+						delete(top, "exchange_rates")
+					}
+				}
 				delete(v, "currency")
 			}
 			for k, y := range v {
